@@ -163,6 +163,16 @@ EXTRA_FEATURES: dict[str, float] = {
     "random_twins_unlisted": 0.08,
     # Identity nodes between values whose declared shapes hold symbolic / unknown dimensions
     "symbolic_dims": 0.12,
+    # names a pass DERIVES when it makes a name unique are already in use.  Initializers of sibling / nested subgraphs
+    # carry the same name ``c`` (legal: sibling scopes) and other values are literally called ``c_1``, ``c_2``,
+    # ``c_1_1`` ...: further initializers of the same / an earlier / a later subgraph, main-graph initializers and
+    # node outputs, node outputs and formal inputs local to other subgraphs.  All tensors differ and are all used
+    "subgraph_init_name_family": 0.20,
+    # ... and the initializer that holds the derived name is an OUTPUT of its If branch (it cannot leave the branch)
+    "subgraph_init_returned_name_family": 0.05,
+    # the same around function calls: values inside a function that is called several times are called ``t`` (and
+    # ``t_2``), values where the calls sit are called ``t``, ``t_2``, ``t_3``, ``t_2_2`` ... (functions are name spaces)
+    "fn_inner_name_family": 0.10,
 }
 ALL_FEATURES: dict[str, float] = {**FEATURES, **EXTRA_FEATURES}
 _FN_FEATURES = ("fn", "fn_attr", "fn_default_used", "fn_nested", "fn_overload")
@@ -1890,6 +1900,218 @@ class _Builder:
                 self.observe.append(y)
                 self.symbolic_outputs[id(y.v)] = y.v.shape
 
+    # ---- names that a pass derives when it makes a name unique, already in use ----------------------
+    def plant_subgraph_init_name_family(self, rng):
+        self._plant_init_name_family(rng, returned=False)
+
+    def plant_subgraph_init_returned_name_family(self, rng):
+        self._plant_init_name_family(rng, returned=True)
+
+    def _plant_init_name_family(self, rng, returned: bool):
+        """Initializers of sibling / nested subgraphs that carry the SAME name ``c`` (sibling scopes: legal), and
+        values that already carry the names a pass derives when it has to make ``c`` unique (``c_1``, ``c_2``,
+        ``c_1_1``): further initializers of the same, an earlier or a later subgraph (before or after ``c`` in the
+        graph's initializer list), a main-graph initializer, a main-graph node output before / after the control
+        flow, a node output local to a subgraph, the carried formal input of a Loop body.  Every holder has its own
+        tensor (they differ by at least 5 everywhere) and is used on the way to a graph output, so a value that ends
+        up under another holder's name - or is replaced by it - is an output difference.  No name hides a visible
+        one: ``c`` is only held in scopes that do not enclose each other, every derived name has one holder.
+        ``returned``: the first derived name is held by an initializer of an If branch that also holds ``c``, and that
+        initializer is itself one of the branch's OUTPUTS (the checker and both evaluators accept that) - such an
+        initializer has to stay in its subgraph when the others are moved to the main graph."""
+        dec = random.Random(rng.random())  # variant decisions: independent of pool sizes
+        m = self.main
+        T = (F32, (2, 3))
+        x = self._x(rng)
+        base = self.fresh("c")
+        serial = itertools.count(1)
+        shared = self.rand_array(rng, F32, (2, 3)) if dec.random() < 0.15 else None  # the ``c`` tensors are equal
+
+        def arr(name: str) -> np.ndarray:
+            if name == base and shared is not None:
+                return shared.copy()
+            return (self.rand_array(rng, F32, (2, 3)) + np.float32(8 * next(serial))).astype(np.float32)
+
+        slots = {k: {"inits": [], "nodes": [], "captures": [], "returned": []} for k in ("A.then", "A.else", "B.then", "B.else", "L", "N")}
+        # the scopes that hold an initializer called ``c`` (N is nested in A.then, so these two exclude each other)
+        pools = [["A.then", "A.else"], ["A.then", "B.then"], ["A.else", "L"], ["N", "A.else"], ["A.then", "A.else", "B.then"],
+                 ["A.then", "L", "B.else"], ["N", "A.else", "B.then"], ["B.then", "L"]]
+        holders = dec.choice(pools)
+        for k in holders:
+            slots[k]["inits"].append(base)
+        # the derived names and who holds them
+        family = [f"{base}_1", f"{base}_2", f"{base}_1_1", f"{base}_3"]
+        chosen = [family[0]] if dec.random() < 0.8 else []
+        chosen += [n for n in family[1:] if dec.random() < 0.35]
+        if not chosen:
+            chosen = [family[1]]
+        main_before, main_after, main_inits, carry = [], [], [], None
+        for number, name in enumerate(chosen):
+            kind = dec.choice(["init"] * 6 + ["sub_node", "main_init", "main_before", "main_after", "loop_carry"])
+            if kind == "loop_carry" and carry is not None:
+                kind = "init"
+            if returned and number == 0:
+                slot = slots[dec.choice([k for k in holders if k[0] in "AB"])]  # every pool has a branch of If A or B
+                slot["inits"].insert(dec.randrange(len(slot["inits"]) + 1), name)
+                slot["returned"].append(name)
+            elif kind == "init":
+                slot = slots[dec.choice(sorted(slots))]
+                slot["inits"].insert(dec.randrange(len(slot["inits"]) + 1), name)
+            elif kind == "sub_node":
+                slots[dec.choice(sorted(slots))]["nodes"].append(name)
+            elif kind == "main_init":
+                main_inits.append(name)
+            elif kind == "main_before":
+                main_before.append(name)
+            elif kind == "main_after":
+                main_after.append(name)
+            else:
+                carry = name
+        outer: list[_TV] = []  # main-graph holders that the subgraphs may capture
+        for name in main_inits:
+            h = self.add_init(m, rng, F32, (2, 3), arr(name), name=name)
+            self._hide(m, [h])
+            self.observe += self._hide(m, self.emit(m, "Add", [x, h]))
+            outer.append(h)
+        for name in main_before:
+            h = self.emit(m, "Add", [x, self.const(m, rng, F32, (2, 3), arr(name), form="value")], names=[name])[0]
+            self._hide(m, [h])
+            self.observe.append(h)
+            outer.append(h)
+        for h in outer:
+            if dec.random() < 0.5:
+                slots[dec.choice(sorted(slots))]["captures"].append(h)
+
+        def content(s, key: str, cur: _TV, extra: list | None = None) -> _TV:
+            slot = slots[key]
+            for name in slot["inits"]:
+                w = self.add_init(s, rng, F32, (2, 3), arr(name), name=name)
+                if name in slot["returned"]:
+                    extra.append(w)
+                    if dec.random() < 0.5:
+                        continue
+                cur = self.emit(s, dec.choice(["Add", "Sub", "Mul"]), [cur, w], typed=True)[0]
+            for name in slot["nodes"]:
+                t = self.emit(s, "Add", [x, self.const(s, rng, F32, (2, 3), arr(name), form="value")], names=[name], typed=True)[0]
+                cur = self.emit(s, dec.choice(["Sub", "Mul"]), [cur, t], typed=True)[0]
+            for h in slot["captures"]:
+                cur = self.emit(s, "Sub", [cur, h], typed=True)[0]
+            if not any(slot.values()):  # a subgraph output must be produced by a node of the subgraph
+                cur = self.emit(s, dec.choice(["Relu", "Neg"]), [cur], typed=True)[0]
+            return cur
+
+        def used(key: str) -> bool:
+            return any(slots[key].values())
+
+        def if_node(then_key: str, else_key: str, nested_key: str | None) -> list[_TV]:
+            width = 1 + max(len(slots[then_key]["returned"]), len(slots[else_key]["returned"]))
+
+            def outputs(b, cur, extra):  # both branches return ``width`` values
+                while len(extra) < width - 1:
+                    extra.append(self.emit(b, dec.choice(["Relu", "Abs"]), [x], typed=True)[0])
+                return [cur, *extra]
+
+            def then(b):
+                extra: list[_TV] = []
+                cur = content(b, then_key, x, extra)
+                if nested_key is not None:
+                    inner = self.gen_if(b, rng, then_hook=lambda n: [content(n, nested_key, cur)], out_types=[T])[0]
+                    cur = self.emit(b, "Sub", [inner, x], typed=True)[0]
+                return outputs(b, cur, extra)
+
+            def other(b):
+                extra: list[_TV] = []
+                return outputs(b, content(b, else_key, x, extra), extra)
+            return self.gen_if(m, rng, then_hook=then, else_hook=other, out_types=[T] * width)
+
+        def loop_node() -> list[_TV]:
+            def body(b, carried):
+                if carry is not None:
+                    carried.v.name = carry
+                return content(b, "L", self.emit(b, "Add", [carried, x], typed=True)[0])
+            return self.gen_loop(m, rng, body_hook=body, v0=x)
+        makers = []
+        if used("A.then") or used("A.else") or used("N"):
+            makers.append(lambda: if_node("A.then", "A.else", "N" if used("N") else None))
+        if used("B.then") or used("B.else"):
+            makers.append(lambda: if_node("B.then", "B.else", None))
+        if used("L") or carry is not None:
+            makers.append(loop_node)
+        dec.shuffle(makers)
+        for make in makers:
+            self.observe += self._hide(m, make())
+        for name in main_after:
+            self.observe += self._hide(m, self.emit(m, "Sub", [x, self.const(m, rng, F32, (2, 3), arr(name), form="value")], names=[name]))
+
+    def plant_fn_inner_name_family(self, rng):
+        """A function f whose own values are called ``t`` (and ``t_2``; at the top level of the body or local to a
+        branch in it) is called two or three times - from the main graph and from an If branch - where values are
+        called ``t``, ``t_2``, ``t_3``, ``t_2_2`` ... already: main-graph node outputs before, between and after the
+        calls, a main-graph initializer, a value local to a sibling subgraph.  Functions are separate name spaces, so
+        this is legal; a pass that moves f's values to the call site has to find names that none of them holds."""
+        dec = random.Random(rng.random())  # variant decisions: independent of pool sizes
+        m = self.main
+        T = (F32, (2, 3))
+        base = self.fresh("t")
+        second = dec.choice([None, "top", "branch"])
+
+        def body(s):
+            x = s.inputs[0]
+            a = self.emit(s, dec.choice(["Abs", "Neg"]), [x], names=[base])[0]
+            cur = self.emit(s, "Mul", [a, x])[0]
+            if second == "top":
+                b = self.emit(s, "Sub", [cur, a], names=[f"{base}_2"])[0]
+                cur = self.emit(s, "Add", [b, x])[0]
+            elif second == "branch":
+                def then(n):
+                    b = self.emit(n, "Sub", [cur, a], names=[f"{base}_2"], typed=True)[0]
+                    return [self.emit(n, "Add", [b, x], typed=True)[0]]
+                cur = self.gen_if(s, rng, then_hook=then, else_hook=lambda n: [self.emit(n, "Relu", [cur], typed=True)[0]],
+                                  out_types=[T])[0]
+            return [cur]
+        f = self.gen_function(rng, in_types=[T, (BOOL, ())], with_attrs=False, body_hook=body)
+        family = [base, f"{base}_2", f"{base}_3", f"{base}_2_2", f"{base}_4", f"{base}_1"]
+        chosen = [n for n in family[:3] if dec.random() < 0.7] + [n for n in family[3:] if dec.random() < 0.3]
+        if not chosen:
+            chosen = [family[1]]
+        dec.shuffle(chosen)
+        cond = self.bool_scalar(m, rng)
+        x0 = self._x(rng)
+        serial = itertools.count(1)
+
+        def holder(name: str) -> None:
+            """One value of the call site's name space called ``name``, observed at a graph output."""
+            kind = dec.choice(["node", "node", "node", "init", "sibling"])
+            k = np.float32(3 * next(serial))
+            if kind == "init":
+                h = self.add_init(m, rng, F32, (2, 3), (self.rand_array(rng, F32, (2, 3)) + k).astype(np.float32), name=name)
+                self._hide(m, [h])
+                self.observe += self._hide(m, self.emit(m, "Add", [x0, h]))
+            elif kind == "sibling":
+                def sib(b):
+                    t = self.emit(b, "Add", [x0, self.const(b, rng, F32, (), np.array(k, np.float32))], names=[name], typed=True)[0]
+                    return [self.emit(b, "Neg", [t], typed=True)[0]]
+                self.observe += self._hide(m, self.gen_if(m, rng, then_hook=sib, out_types=[T]))
+            else:
+                self.observe += self._hide(m, self.emit(m, "Add", [x0, self.const(m, rng, F32, (), np.array(k, np.float32))], names=[name]))
+        n_calls = dec.choice([2, 2, 3])
+        # the holders are spread over the positions before, between and after the calls
+        where = {name: dec.randrange(n_calls + 1) for name in chosen}
+        for i in range(n_calls + 1):
+            for name in chosen:
+                if where[name] == i:
+                    holder(name)
+            if i == n_calls:
+                break
+            arg = self._hide(m, self.emit(m, ["Abs", "Neg", "Relu"][i], [x0]))[0]
+            if i == 1 and dec.random() < 0.4:
+                # (the arguments differ from call to call, so gen_call never refuses the call as a duplicate)
+                self.observe += self._hide(m, self.gen_if(
+                    m, rng, then_hook=lambda b, arg=arg: [self.gen_call(b, rng, f, inputs=[arg, cond], typed=True)[0]],
+                    out_types=[T]))
+            else:
+                self.observe += self._hide(m, self.gen_call(m, rng, f, inputs=[arg, cond]))
+
     # ---- assembly --------------------------------------------------------------------------------
     PLANT_ORDER = [
         "consts_all_forms", "dup_expr", "near_dup_attr", "near_dup_outcount", "near_dup_default", "signed_zero",
@@ -1900,7 +2122,7 @@ class _Builder:
         "near_dup_const_rank", "dup_init_is_input", "fn_called_from_subgraph",
         "fn_attr_forward_renamed", "fn_scope_name_reuse", "fn_subgraph_formal_name_reuse",
         "const_strings", "string_inits", "fn_optional_inputs", "fn_foreign_opset", "random_twins", "random_twins_unlisted",
-        "symbolic_dims", "out_alias_input", "out_init", "out_dup",
+        "symbolic_dims", "subgraph_init_name_family", "subgraph_init_returned_name_family", "fn_inner_name_family", "out_alias_input", "out_init", "out_dup",
     ]
 
     def build(self) -> tuple[ir.Model, dict]:
